@@ -689,6 +689,10 @@ def write_menu_item(f, node, visibility, kconfig, reverse_deps):
         f.write(f"{INDENT}Available options:\n\n")
         choice_node = node.list
         while choice_node:
+            if not choice_node.prompt:
+                # a promptless symbol inside a choice cannot be selected by the user; nothing to list
+                choice_node = choice_node.next
+                continue
             # Format available options as a list
             # First, link anchor for this option
             f.write(f"{INDENT * 2}  .. _{get_link_anchor(choice_node)}:\n\n")
